@@ -95,6 +95,31 @@ struct Recorder {
       auto r = h | boost::adaptors::transformed([](const E& e) { return std::make_tuple(e.u, e.v, static_cast<double>(e.f)); });
       emit(id, "transformed", h, call<long, double>(r));
     }
+    {  // unsigned vertex type ("Vertex type must be an integer type")
+      Graph h = shuffled(g);
+      std::vector<std::tuple<unsigned, unsigned, double>> r;
+      for (auto& e : h) r.emplace_back(static_cast<unsigned>(e.u), static_cast<unsigned>(e.v), static_cast<double>(e.f));
+      emit(id, "uint", h, call<unsigned, double>(r));
+    }
+    // unsigned vertex types narrower than int.  Only on inputs whose weights are all equal: there the sweep never looks
+    // at a later time, which keeps the known defect C12-unsigned-narrow-vertex (no dominator found is not recognised)
+    // inside defined behaviour, so that the rest of the run is still recorded.
+    bool one_weight = true;
+    long maxlab = 0;
+    for (auto& e : g) { one_weight = one_weight && e.f == g[0].f; maxlab = std::max(maxlab, std::max(e.u, e.v)); }
+    if (one_weight && maxlab < 250) {
+      {
+        std::vector<std::tuple<unsigned short, unsigned short, double>> r;
+        for (auto& e : g) r.emplace_back(static_cast<unsigned short>(e.u), static_cast<unsigned short>(e.v), static_cast<double>(e.f));
+        emit(id, "ushort", g, call<unsigned short, double>(r));
+      }
+      {
+        Graph h = shuffled(g);
+        std::vector<std::tuple<unsigned char, unsigned char, float>> r;
+        for (auto& e : h) r.emplace_back(static_cast<unsigned char>(e.u), static_cast<unsigned char>(e.v), static_cast<float>(e.f));
+        emit(id, "uchar", h, call<unsigned char, float>(r));
+      }
+    }
     if (all_variants) {  // non-contiguous, non-monotone vertex numbers; values 2f-5 (negative, zero); short + float in a list
       long n = 0;
       for (auto& e : g) n = std::max(n, std::max(e.u, e.v) + 1);
@@ -117,10 +142,10 @@ inline void trim(Rng& rng, int n, Graph& g, long max_cells) {
   while (count_cliques(n, g) > max_cells) g.erase(g.begin() + rng.below(g.size()));
 }
 
-inline Graph random_graph(Rng& rng, long i, std::string& fam) {
-  const long max_cells = 150;
+inline Graph random_graph(Rng& rng, long i, std::string& fam, bool big) {
+  const long max_cells = big ? 400 : 150;     // big: 9-11 vertices, up to 400 simplices
   Graph g;
-  int n = 7 + static_cast<int>(rng.below(3));
+  int n = (big ? 9 : 7) + static_cast<int>(rng.below(3));
   int nw = std::vector<int>{1, 2, 3, 5}[rng.below(4)];
   auto w = [&]() { return 1 + static_cast<long>(rng.below(nw)); };
   switch (i % 6) {
@@ -144,11 +169,11 @@ inline Graph random_graph(Rng& rng, long i, std::string& fam) {
     }
     case 2: {  // cross-polytope (sphere of dimension k-1) on 2k vertices, then some of the antipodal pairs at later times
       fam = "cross";
-      int k = 3 + static_cast<int>(rng.below(2));
+      int k = 3 + static_cast<int>(rng.below(big ? 3 : 2));
       n = 2 * k;
       for (int a = 0; a < n; ++a) for (int b = a + 1; b < n; ++b) if (b != a + k) g.push_back({a, b, w()});
       for (int a = 0; a < k; ++a) if (rng.chance(1, 2)) g.push_back({a, a + k, nw + 1 + static_cast<long>(rng.below(2))});
-      if (rng.chance(1, 2) && n < 9) {  // a cone point appearing late
+      if (rng.chance(1, 2)) {  // a cone point appearing late
         for (int a = 0; a < n; ++a) if (rng.chance(3, 4)) g.push_back({a, n, nw + 1 + static_cast<long>(rng.below(3))});
         ++n;
       }
@@ -164,7 +189,7 @@ inline Graph random_graph(Rng& rng, long i, std::string& fam) {
     }
     case 4: {  // complete graph on 7 vertices (127 simplices), 1-3 distinct weights
       fam = "complete";
-      n = 7;
+      n = big ? 8 : 7;
       nw = 1 + static_cast<int>(rng.below(3));
       for (int a = 0; a < n; ++a) for (int b = a + 1; b < n; ++b) g.push_back({a, b, w()});
       break;
